@@ -29,6 +29,7 @@ type case = {
   ops : string list;
   otrain : f64 option array array;   (* program -> train row -> out *)
   oquery : f64 option array array;
+  stoks : string list;               (* typed tokens of the real serialize::save text *)
 }
 
 let parse (line : string) : case =
@@ -62,7 +63,13 @@ let parse (line : string) : case =
     for i = 0 to ntrain - 1 do otrain.(q).(i) <- parse_out (next ()) done;
     for j = 0 to nquery - 1 do oquery.(q).(j) <- parse_out (next ()) done
   done;
-  { kind; scheme; comp; classes; xslot; nprog; labels; ntrain; nquery; ops; otrain; oquery }
+  let stoks =
+    if !p < Array.length toks && toks.(!p) = "S" then begin
+      incr p;
+      let n = num () in
+      SL.init n (fun _ -> next ())
+    end else [] in
+  { kind; scheme; comp; classes; xslot; nprog; labels; ntrain; nquery; ops; otrain; oquery; stoks }
 
 let class_label (s : string) : int = int_of_string (String.sub s 2 (String.length s - 2))
 
@@ -104,6 +111,57 @@ let predictor (c : case) : (int list -> (int -> f64 option) -> string) =
 
 let tag_label (s : string) : int = int_of_string (SL.hd (String.split_on_char '/' s))
 let tag_conf (s : string) : f64 = f64_of_hex (SL.nth (String.split_on_char '/' s) 1)
+
+(* ---- serialisation: typed tokens  s:<word>  n:<int>  f:<hex64>  i:<member> *)
+let ids = [("REG_LAMBDA_F", 0); ("TEAM_REG_LAMBDA_F", 1); ("DYN_SLOT_LAMBDA_F", 2); ("GAUSSIAN_LAMBDA_F", 3);
+           ("BINARY_LAMBDA_F", 4); ("TEAM_DYN_SLOT_LAMBDA_F", 5); ("TEAM_GAUSSIAN_LAMBDA_F", 6);
+           ("TEAM_BINARY_LAMBDA_F", 7)]
+let z_of_word (w : string) : z =
+  match SL.assoc_opt w ids with
+  | Some k -> z_of_int k
+  | None ->
+      if String.length w > 1 && w.[0] = 'c' then z_of_int (1000 + int_of_string (String.sub w 1 (String.length w - 1)))
+      else z_of_int 999
+let word_of_z (x : z) : string =
+  let k = int_of_z x in
+  match SL.find_opt (fun (_, v) -> v = k) ids with
+  | Some (w, _) -> w
+  | None -> if k >= 1000 then "c" ^ string_of_int (k - 1000) else "?"
+let tok_of_string (t : string) : int tok =
+  let p = String.sub t 2 (String.length t - 2) in
+  match t.[0] with
+  | 's' -> TS (z_of_word p)
+  | 'n' -> TN (z_of_int (int_of_string p))
+  | 'f' -> TF (f64_of_hex p)
+  | 'i' -> TI (int_of_string p)
+  | _ -> failwith "stok"
+let string_of_tok (t : int tok) : string =
+  match t with
+  | TS x -> "s:" ^ word_of_z x
+  | TN n -> "n:" ^ dec_of_z n
+  | TF f -> "f:" ^ hex_of_f64 f
+  | TI i -> "i:" ^ string_of_int i
+
+(* load the real text with the model's parser, print it again, predict with the loaded model *)
+let serial_part (c : case) : string =
+  if c.stoks = [] then ""
+  else
+    let toks = SL.map tok_of_string c.stoks in
+    match load_model toks with
+    | None -> " sertok NOPARSE"
+    | Some (m, rest) ->
+        if rest <> [] then " sertok TRAILING"
+        else begin
+          let again = SL.map string_of_tok (save_model m) in
+          let same = (again = c.stoks) in
+          let b = Buffer.create 64 in
+          Buffer.add_string b (if same then " sertok ok rtm" else " sertok DIFF rtm");
+          for j = 0 to c.nquery - 1 do
+            let a = spredict m_atan m_exp (fun k -> c.oquery.(k).(j)) m in
+            Buffer.add_string b (" " ^ (match a with AValue o -> show_out o | ATag t -> show_tag t | AUndefined -> "UB"))
+          done;
+          Buffer.contents b
+        end
 
 let t_case (c : case) : string =
   let pred = predictor c in
@@ -158,6 +216,7 @@ let t_case (c : case) : string =
     | Some g -> SL.iter (fun mv -> Buffer.add_string b (" " ^ hex_of_f64 (Stdlib.snd mv))) (gauss_stats g)
     | None -> raise Undefined_behaviour
   end;
+  Buffer.add_string b (serial_part c);
   Buffer.contents b
 
 let parse_op (s : string) : int list op =
